@@ -183,6 +183,22 @@ def tr_expr(node, src):
                 raise Refuse("np.where condition must be one comparison: %s" % ast.dump(c))
             return ["Where", _CMP[type(c.ops[0])], tr_expr(c.left, src), tr_expr(c.comparators[0], src),
                     tr_expr(args[1], src), tr_expr(args[2], src)]
+        if fn == "select":
+            # np.select([c1, .., cn], [v1, .., vn], default=d): element-wise, the first true condition wins, else d
+            # (d = 0 when omitted) = np.where(c1, v1, np.where(c2, v2, .. d)); every branch is evaluated eagerly in both
+            kw = {k.arg: k.value for k in kws}
+            if not (2 <= len(args) <= 3 and set(kw) <= {"default"} and not (len(args) == 3 and kw)
+                    and isinstance(args[0], ast.List) and isinstance(args[1], ast.List)
+                    and len(args[0].elts) == len(args[1].elts) >= 1):
+                raise Refuse("unsupported np.select call")
+            dflt = args[2] if len(args) == 3 else kw.get("default")
+            acc = ["Lit", "0", 0, 1] if dflt is None else tr_expr(dflt, src)
+            for c, v in reversed(list(zip(args[0].elts, args[1].elts))):
+                if not (isinstance(c, ast.Compare) and len(c.ops) == 1 and type(c.ops[0]) in _CMP):
+                    raise Refuse("np.select condition must be one comparison: %s" % ast.dump(c))
+                acc = ["Where", _CMP[type(c.ops[0])], tr_expr(c.left, src), tr_expr(c.comparators[0], src),
+                       tr_expr(v, src), acc]
+            return acc
         if fn in ("max", "amax"):
             if len(args) == 1 and not kws and isinstance(args[0], ast.Name) and args[0].id == "X":
                 return ["MaxX"]
@@ -267,159 +283,326 @@ def _self_attr(node):
     return None
 
 
+def _functions_of(cls):
+    return [n for n in cls.body if isinstance(n, (ast.FunctionDef, ast.AsyncFunctionDef))]
+
+
+def _own_walk(fn):
+    """nodes of a function body, not descending into nested function definitions"""
+    stack = list(fn.body)
+    while stack:
+        n = stack.pop()
+        yield n
+        for ch in ast.iter_child_nodes(n):
+            if not isinstance(ch, (ast.FunctionDef, ast.AsyncFunctionDef, ast.ClassDef, ast.Lambda)):
+                stack.append(ch)
+
+
+class _Scope:
+    """single-assignment view of one function: name -> the one expression assigned to it"""
+
+    def __init__(self, fn):
+        self.fn = fn
+        self.assigned = {}
+        self.unique_of = {}      # name -> ("values" | "counts", array name)
+        for n in _own_walk(fn):
+            if isinstance(n, ast.Assign) and len(n.targets) == 1:
+                tg, val = n.targets[0], n.value
+            elif isinstance(n, ast.AnnAssign) and n.value is not None:
+                tg, val = n.target, n.value
+            else:
+                continue
+            if isinstance(tg, ast.Name):
+                self.assigned.setdefault(tg.id, []).append(val)
+            elif isinstance(tg, ast.Tuple) and len(tg.elts) == 2 and all(isinstance(e, ast.Name) for e in tg.elts) \
+                    and _is_call(val, "np", "unique"):
+                kw = {k.arg: k.value for k in val.keywords}
+                if len(val.args) == 1 and isinstance(val.args[0], ast.Name) and set(kw) == {"return_counts"} \
+                        and isinstance(kw["return_counts"], ast.Constant) and kw["return_counts"].value is True:
+                    for e, role in zip(tg.elts, ("values", "counts")):
+                        self.assigned.setdefault(e.id, []).append(None)
+                        self.unique_of[e.id] = (role, val.args[0].id)
+        # names bound in other ways (loop variables, parameters, augmented assignments) are not single assignments
+        for n in _own_walk(fn):
+            if isinstance(n, ast.AugAssign) and isinstance(n.target, ast.Name):
+                self.assigned.setdefault(n.target.id, []).extend([None, None])
+
+    def value(self, name):
+        v = self.assigned.get(name, [])
+        return v[0] if len(v) == 1 else None
+
+    def deref(self, node, depth=0):
+        """follow single assignments of plain names"""
+        while isinstance(node, ast.Name) and depth < 8:
+            v = self.value(node.id)
+            if v is None:
+                return node
+            node = v
+            depth += 1
+        return node
+
+
+ANY = "*"      # "the number of rows of the input column" (equal to the rows of every element-wise transformed column)
+
+
+def _same_arr(a, b):
+    return a == b or ANY in (a, b)
+
+
+def _classify(sc, node):
+    """which statistic of the rendered column does the expression denote?
+    -> ("distinct", arr, None) | ("majority", arr, None) | ("nanshare", arr, literal) | None"""
+    node = sc.deref(node)
+
+    def counter_of(n):
+        """n is (a name bound to) Counter(arr) / Counter(arr.tolist()): -> arr"""
+        n = sc.deref(n)
+        if (_is_call(n, "Counter") or _is_call(n, "collections", "Counter")) and len(n.args) == 1 and not n.keywords:
+            a = n.args[0]
+            if isinstance(a, ast.Name):
+                return a.id
+            if isinstance(a, ast.Call) and isinstance(a.func, ast.Attribute) and a.func.attr == "tolist" \
+                    and not a.args and not a.keywords and isinstance(a.func.value, ast.Name):
+                return a.func.value.id
+        return None
+
+    def uniq(n, role):
+        if isinstance(n, ast.Name) and sc.unique_of.get(n.id, ("", ""))[0] == role:
+            return sc.unique_of[n.id][1]
+        return None
+
+    def counter_values(n):
+        """vc.values() -> arr"""
+        if isinstance(n, ast.Call) and isinstance(n.func, ast.Attribute) and n.func.attr == "values" and not n.args \
+                and not n.keywords:
+            return counter_of(n.func.value)
+        return None
+
+    def rows(n):
+        """number of rows of the rendered column -> arr | ANY | None"""
+        n = sc.deref(n)
+        if _is_call(n, "len") and len(n.args) == 1 and not n.keywords and isinstance(n.args[0], ast.Name):
+            if _is_call(sc.deref(n.args[0]), "self", "get_vals"):
+                return ANY
+            return n.args[0].id
+        if isinstance(n, ast.Attribute) and n.attr == "size" and isinstance(n.value, ast.Name):
+            return n.value.id
+        if (_is_call(n, "np", "sum") or _is_call(n, "sum")) and len(n.args) == 1 and not n.keywords:
+            return uniq(n.args[0], "counts") or counter_values(n.args[0])
+        return None
+
+    # distinct
+    if _is_call(node, "len") and len(node.args) == 1 and not node.keywords:
+        arr = uniq(node.args[0], "values") or counter_of(node.args[0])
+        if arr:
+            return ("distinct", arr, None)
+    # quotients
+    num = den = None
+    if _is_call(node, "np", "divide") and len(node.args) == 2 and not node.keywords:
+        num, den = node.args
+    elif isinstance(node, ast.BinOp) and isinstance(node.op, ast.Div):
+        num, den = node.left, node.right
+    if num is None:
+        return None
+    r = rows(den)
+    if r is None:
+        return None
+    num = sc.deref(num)
+    # most frequent value
+    if (_is_call(num, "np", "max") or _is_call(num, "max")) and len(num.args) == 1 and not num.keywords:
+        arr = uniq(num.args[0], "counts") or counter_values(num.args[0])
+        if arr and _same_arr(arr, r):
+            return ("majority", arr, None)
+    # occurrences of the nan literal
+    if (_is_call(num, "np", "count_nonzero") or _is_call(num, "np", "sum")) and len(num.args) == 1 and not num.keywords:
+        c = num.args[0]
+        if isinstance(c, ast.Compare) and len(c.ops) == 1 and isinstance(c.ops[0], ast.Eq) and isinstance(c.left, ast.Name) \
+                and isinstance(c.comparators[0], ast.Constant) and type(c.comparators[0].value) is str \
+                and _same_arr(c.left.id, r):
+            return ("nanshare", c.left.id, c.comparators[0].value)
+    if isinstance(num, ast.Call) and isinstance(num.func, ast.Attribute) and num.func.attr == "get" and len(num.args) == 2 \
+            and not num.keywords and isinstance(num.args[0], ast.Constant) and type(num.args[0].value) is str \
+            and isinstance(num.args[1], ast.Constant) and num.args[1].value == 0 and type(num.args[1].value) is int:
+        arr = counter_of(num.func.value)
+        if arr and _same_arr(arr, r):
+            return ("nanshare", arr, num.args[0].value)
+    return None
+
+
 def extract_constants(src):
+    """keep/drop rule, numeric parse and preset separator of class FeatureTransformerGeneric.
+    Every item is searched in all methods of the class and must be found exactly once (else Refuse)."""
     mod = ast.parse(src)
     cls = _find_class(mod, "FeatureTransformerGeneric")
-    init = _find_method(cls, "__init__")
-    cnf = _find_method(cls, "construct_new_features")
+    fns = _functions_of(cls)
     gv = _find_method(cls, "get_vals")
+    _find_method(cls, "__init__")
+    _find_method(cls, "construct_new_features")
 
-    # numeric attributes set in __init__ (self.<a> = <number>)
-    attrs = {}
-    for n in ast.walk(init):
-        if isinstance(n, (ast.Assign, ast.AnnAssign)):
-            tgts = n.targets if isinstance(n, ast.Assign) else [n.target]
-            val = n.value
-            for t in tgts:
-                a = _self_attr(t)
-                if a and isinstance(val, ast.Constant) and type(val.value) in (int, float):
-                    if a in attrs:
-                        raise Refuse("self.%s assigned twice in __init__" % a)
-                    attrs[a] = lit_of_text(ast.get_source_segment(src, val))
-
-    # preset separator: <something>.split('<sep>') in __init__
-    seps = [n.args[0].value for n in ast.walk(init)
-            if isinstance(n, ast.Call) and isinstance(n.func, ast.Attribute) and n.func.attr == "split"
-            and len(n.args) == 1 and isinstance(n.args[0], ast.Constant) and type(n.args[0].value) is str]
-    if len(seps) != 1 or len(seps[0]) != 1:
-        raise Refuse("preset separator: expected exactly one .split('<one char>') in __init__, found %r" % (seps,))
-
-    # local definitions inside construct_new_features: name -> value expression
-    local = {}
-    unique_of = {}
-    for n in ast.walk(cnf):
+    # numeric constants: class-level NAME = <number>, and self.<a> = <number> | self.NAME | cls.NAME | Class.NAME
+    class_consts = {}
+    for n in cls.body:
+        tg = val = None
         if isinstance(n, ast.Assign) and len(n.targets) == 1:
-            t = n.targets[0]
-            if isinstance(t, ast.Name):
-                local.setdefault(t.id, []).append(n.value)
-            elif isinstance(t, ast.Tuple) and all(isinstance(e, ast.Name) for e in t.elts) and _is_call(n.value, "np", "unique"):
-                kw = {k.arg: k.value for k in n.value.keywords}
-                if len(t.elts) == 2 and len(n.value.args) == 1 and isinstance(n.value.args[0], ast.Name) \
-                        and set(kw) == {"return_counts"} and isinstance(kw["return_counts"], ast.Constant) \
-                        and kw["return_counts"].value is True:
-                    unique_of[t.elts[0].id] = ("values", n.value.args[0].id)
-                    unique_of[t.elts[1].id] = ("counts", n.value.args[0].id)
+            tg, val = n.targets[0], n.value
+        elif isinstance(n, ast.AnnAssign) and n.value is not None:
+            tg, val = n.target, n.value
+        if isinstance(tg, ast.Name):
+            class_consts.setdefault(tg.id, []).append(val)
+    self_assign = {}
+    for fn in fns:
+        for n in ast.walk(fn):
+            tgts, val = [], None
+            if isinstance(n, ast.Assign):
+                tgts, val = n.targets, n.value
+            elif isinstance(n, ast.AnnAssign) and n.value is not None:
+                tgts, val = [n.target], n.value
+            elif isinstance(n, ast.AugAssign):
+                tgts, val = [n.target], None
+            for tg in tgts:
+                a = _self_attr(tg)
+                if a:
+                    self_assign.setdefault(a, []).append(val)
 
-    def single(name):
-        v = local.get(name, [])
-        if len(v) != 1:
-            raise Refuse("expected exactly one assignment to %r in construct_new_features" % name)
-        return v[0]
-
-    def arr_name(node):
-        return node.id if isinstance(node, ast.Name) else None
-
-    def classify(node):
-        """which quantity of the transformed array does this expression denote?"""
-        if isinstance(node, ast.Name) and node.id in local:
-            return classify(single(node.id))
-        # len(u), u = distinct values
-        if _is_call(node, "len") and len(node.args) == 1 and isinstance(node.args[0], ast.Name) \
-                and unique_of.get(node.args[0].id, ("", ""))[0] == "values":
-            return ("distinct", unique_of[node.args[0].id][1], None)
-        # max(c) / sum(c)   or  max(c) / len(arr)
-        num = den = None
-        if _is_call(node, "np", "divide") and len(node.args) == 2 and not node.keywords:
-            num, den = node.args
-        elif isinstance(node, ast.BinOp) and isinstance(node.op, ast.Div):
-            num, den = node.left, node.right
-        if num is not None:
-            if _is_call(num, "np", "max") and len(num.args) == 1 and not num.keywords and isinstance(num.args[0], ast.Name) \
-                    and unique_of.get(num.args[0].id, ("", ""))[0] == "counts":
-                arr = unique_of[num.args[0].id][1]
-                if (_is_call(den, "np", "sum") and len(den.args) == 1 and not den.keywords and isinstance(den.args[0], ast.Name)
-                        and unique_of.get(den.args[0].id) == ("counts", arr)) or \
-                        (_is_call(den, "len") and len(den.args) == 1 and arr_name(den.args[0]) == arr):
-                    return ("majority", arr, None)
-            if _is_call(num, "np", "count_nonzero") and len(num.args) == 1 and not num.keywords \
-                    and isinstance(num.args[0], ast.Compare) and len(num.args[0].ops) == 1 \
-                    and isinstance(num.args[0].ops[0], ast.Eq) and isinstance(num.args[0].left, ast.Name) \
-                    and isinstance(num.args[0].comparators[0], ast.Constant) and type(num.args[0].comparators[0].value) is str:
-                arr = num.args[0].left.id
-                if _is_call(den, "len") and len(den.args) == 1 and arr_name(den.args[0]) == arr:
-                    return ("nanshare", arr, num.args[0].comparators[0].value)
-        return None
-
-    def constant(node):
+    def number(node):
         if isinstance(node, ast.Constant) and type(node.value) in (int, float):
             return lit_of_text(ast.get_source_segment(src, node))
-        a = _self_attr(node)
-        if a is not None:
-            if a not in attrs:
-                raise Refuse("self.%s is not a numeric constant set in __init__" % a)
-            return attrs[a]
         return None
 
-    # the `if` that guards the emission  new_columns[...] = ...
-    guards = []
-    for n in ast.walk(cnf):
-        if isinstance(n, ast.If):
-            for b in n.body:
-                if isinstance(b, ast.Assign) and any(isinstance(t, ast.Subscript) for t in b.targets):
-                    guards.append(n)
-                    break
-    if len(guards) != 1:
-        raise Refuse("expected exactly one `if` guarding the emission of a transformed column, found %d" % len(guards))
-    test = guards[0].test
-    conj = test.values if isinstance(test, ast.BoolOp) and isinstance(test.op, ast.And) else None
-    if conj is None or len(conj) != 3:
-        raise Refuse("keep rule is not a conjunction of three comparisons: %s" % ast.get_source_segment(src, test))
-    rule = {}
-    arrs = set()
-    nan_lit = None
-    for c in conj:
-        if not (isinstance(c, ast.Compare) and len(c.ops) == 1 and type(c.ops[0]) in _CMP):
-            raise Refuse("keep rule conjunct is not a single comparison: %s" % ast.get_source_segment(src, c))
-        op = _CMP[type(c.ops[0])]
-        lq, rq = classify(c.left), classify(c.comparators[0])
-        if lq is not None and rq is None:
-            q, k = lq, constant(c.comparators[0])
-        elif rq is not None and lq is None:
-            q, k, op = rq, constant(c.left), _FLIP[op]
-        else:
-            raise Refuse("cannot read keep rule conjunct: %s" % ast.get_source_segment(src, c))
-        if k is None:
-            raise Refuse("keep rule conjunct compares with a non-constant: %s" % ast.get_source_segment(src, c))
-        if q[0] in rule:
-            raise Refuse("keep rule tests %s twice" % q[0])
-        rule[q[0]] = (op, k)
-        arrs.add(q[1])
-        if q[0] == "nanshare":
-            nan_lit = q[2]
-    if set(rule) != {"distinct", "majority", "nanshare"} or len(arrs) != 1:
-        raise Refuse("keep rule must test distinct count, majority share and nan share of one array; got %s over %s"
-                     % (sorted(rule), sorted(arrs)))
+    def class_const(name):
+        v = class_consts.get(name, [])
+        if len(v) != 1 or number(v[0]) is None:
+            raise Refuse("class attribute %s is not one numeric constant" % name)
+        return number(v[0])
 
-    # get_vals: str(x).replace('<c>', '')  and  <v> if len(x) == 0 else float(x)
+    def constant(node):
+        k = number(node)
+        if k is not None:
+            return k
+        a = _self_attr(node)
+        if a is not None:
+            if a in self_assign:
+                v = self_assign[a]
+                if len(v) != 1 or v[0] is None:
+                    raise Refuse("self.%s is not assigned exactly once in the class" % a)
+                k = number(v[0])
+                if k is not None:
+                    return k
+                inner = v[0]
+                if isinstance(inner, ast.Attribute) and isinstance(inner.value, ast.Name) \
+                        and inner.value.id in ("self", "cls", cls.name):
+                    if inner.attr in self_assign:
+                        raise Refuse("self.%s refers to a mutable attribute" % a)
+                    return class_const(inner.attr)
+                raise Refuse("self.%s is not a numeric constant" % a)
+            return class_const(a)
+        if isinstance(node, ast.Attribute) and isinstance(node.value, ast.Name) and node.value.id in ("cls", cls.name):
+            return class_const(node.attr)
+        return None
+
+    # preset separator: exactly one <x>.split('<one char>') in the class
+    seps = [n.args[0].value for fn in fns for n in ast.walk(fn)
+            if isinstance(n, ast.Call) and isinstance(n.func, ast.Attribute) and n.func.attr == "split"
+            and len(n.args) == 1 and not n.keywords and isinstance(n.args[0], ast.Constant)
+            and type(n.args[0].value) is str]
+    if len(seps) != 1 or len(seps[0]) != 1:
+        raise Refuse("preset separator: expected exactly one .split('<one char>') in the class, found %r" % (seps,))
+
+    # keep rule: the one conjunction of three comparisons over (distinct count, majority share, nan share)
+    found = []
+    for fn in fns:
+        sc = _Scope(fn)
+        for n in _own_walk(fn):
+            if not (isinstance(n, ast.BoolOp) and isinstance(n.op, ast.And) and len(n.values) == 3):
+                continue
+            rule, arrs, nan_lit, ok = {}, [], None, True
+            for c in n.values:
+                if not (isinstance(c, ast.Compare) and len(c.ops) == 1 and type(c.ops[0]) in _CMP):
+                    ok = False
+                    break
+                op = _CMP[type(c.ops[0])]
+                lq, rq = _classify(sc, c.left), _classify(sc, c.comparators[0])
+                if lq is not None and rq is None:
+                    q, kn = lq, c.comparators[0]
+                elif rq is not None and lq is None:
+                    q, kn, op = rq, c.left, _FLIP[op]
+                else:
+                    ok = False
+                    break
+                k = constant(kn)
+                if k is None or q[0] in rule:
+                    ok = False
+                    break
+                rule[q[0]] = (op, k)
+                arrs.append(q[1])
+                if q[0] == "nanshare":
+                    nan_lit = q[2]
+            if ok and set(rule) == {"distinct", "majority", "nanshare"} \
+                    and all(_same_arr(x, y) for x in arrs for y in arrs):
+                found.append((rule, nan_lit))
+    if len(found) != 1:
+        raise Refuse("keep rule: expected exactly one conjunction `distinct <op> k and majority share <op> k and nan share "
+                     "<op> k` over one rendered array in class %s, found %d" % (cls.name, len(found)))
+    rule, nan_lit = found[0]
+
+    # get_vals: exactly one <s>.replace('<c>', '') and exactly one `float(x)` / `<number>` choice on emptiness of x
     reps = [n for n in ast.walk(gv) if isinstance(n, ast.Call) and isinstance(n.func, ast.Attribute) and n.func.attr == "replace"]
     if len(reps) != 1 or len(reps[0].args) != 2 or reps[0].keywords or not all(
-            isinstance(a, ast.Constant) and type(a.value) is str for a in reps[0].args) \
-            or not _is_call(reps[0].func.value, "str"):
-        raise Refuse("get_vals: expected exactly one str(x).replace('<char>', '')")
+            isinstance(a, ast.Constant) and type(a.value) is str for a in reps[0].args):
+        raise Refuse("get_vals: expected exactly one <str>.replace('<char>', '')")
     old, new = reps[0].args[0].value, reps[0].args[1].value
     if new != "" or len(old) != 1:
         raise Refuse("get_vals: replace(%r, %r) is not the removal of one character" % (old, new))
-    ifx = [n for n in ast.walk(gv) if isinstance(n, ast.IfExp)]
-    if len(ifx) != 1:
-        raise Refuse("get_vals: expected exactly one conditional expression")
-    t = ifx[0].test
-    ok = (isinstance(t, ast.Compare) and len(t.ops) == 1 and isinstance(t.ops[0], ast.Eq) and _is_call(t.left, "len")
-          and isinstance(t.comparators[0], ast.Constant) and t.comparators[0].value == 0
-          and isinstance(ifx[0].body, ast.Constant) and type(ifx[0].body.value) in (int, float)
-          and _is_call(ifx[0].orelse, "float"))
-    if not ok:
-        raise Refuse("get_vals: expected `<number> if len(x) == 0 else float(x)`")
-    empty = lit_of_text(ast.get_source_segment(src, ifx[0].body))
+
+    def float_of(n):
+        if _is_call(n, "float") and len(n.args) == 1 and not n.keywords and isinstance(n.args[0], ast.Name):
+            return n.args[0].id
+        return None
+
+    choices = []
+    for n in ast.walk(gv):
+        if not isinstance(n, ast.IfExp):
+            continue
+        for num_branch, flt_branch, const_when_true in ((n.body, n.orelse, True), (n.orelse, n.body, False)):
+            v = float_of(flt_branch)
+            if number(num_branch) is not None and v is not None:
+                choices.append((n.test, v, num_branch, const_when_true))
+    if len(choices) != 1:
+        raise Refuse("get_vals: expected exactly one `<number> if <x is empty> else float(x)` (or the mirrored form), found %d"
+                     % len(choices))
+    test, var, num_branch, const_when_true = choices[0]
+
+    def is_name(n):
+        return isinstance(n, ast.Name) and n.id == var
+
+    def is_len(n):
+        return _is_call(n, "len") and len(n.args) == 1 and is_name(n.args[0])
+
+    def zero(n):
+        return isinstance(n, ast.Constant) and type(n.value) is int and n.value == 0
+
+    def empty_str(n):
+        return isinstance(n, ast.Constant) and n.value == ""
+
+    # does `test` being true mean "x is empty"?
+    empty_when_true = None
+    if isinstance(test, ast.Compare) and len(test.ops) == 1:
+        l, o, r = test.left, test.ops[0], test.comparators[0]
+        if (is_len(l) and zero(r)) or (is_name(l) and empty_str(r)) or (zero(l) and is_len(r)) or (empty_str(l) and is_name(r)):
+            if isinstance(o, ast.Eq):
+                empty_when_true = True
+            elif isinstance(o, ast.NotEq):
+                empty_when_true = False
+            elif isinstance(o, ast.Gt) and is_len(l):
+                empty_when_true = False
+    elif is_name(test) or is_len(test):
+        empty_when_true = False
+    elif isinstance(test, ast.UnaryOp) and isinstance(test.op, ast.Not) and (is_name(test.operand) or is_len(test.operand)):
+        empty_when_true = True
+    if empty_when_true is None or empty_when_true != const_when_true:
+        raise Refuse("get_vals: cannot read `%s` as `<number> when the cell is empty, float(cell) otherwise`"
+                     % ast.get_source_segment(src, choices[0][0]))
+    empty = lit_of_text(ast.get_source_segment(src, num_branch))
     return dict(rule=rule, nan_literal=nan_lit, strip_char=old, empty_value=empty, separator=seps[0])
 
 
